@@ -133,6 +133,11 @@ def gen(rng, tier):
     for i in range(40 if tier == "quick" else 200):
         yield {"family": "headers", "kind": "headers", "date": rng.random() < 0.7, "server": rng.random() < 0.7,
                "alt": rng.choice([[], ['h3=":443"; ma=3600'], ['h3=":443"', 'h3-29=":443"']]), "proto": rng.choice(["h11", "h2", "h3"])}
+    # the date on the wire (real serve(), real clock): every response says when *it* was sent - also the later ones of a connection that
+    # has been open for a while, also the first one of a connection that had been idle before its request came
+    for be in ("asyncio", "trio"):
+        for how in ("second-response", "late-first-request"):
+            yield {"family": "date-on-wire." + how, "kind": "date-wire", "backend": be, "how": how, "proto": "h1" if how == "late-first-request" else rng.choice(["h1", "h2"])}
     for rp in ["", "/", "/api", "/api/", "/a/b//", "//", "/x///"]:
         for loader in ("attr", "mapping", "cli", "toml"):
             yield {"family": "root-path", "kind": "root", "value": rp, "loader": loader}
@@ -191,6 +196,78 @@ def _expected_attr(key, tag, value):
     if tag == "certreqs":
         return ssl.VerifyMode(value)
     return value
+
+
+def _date_on_wire(case, tally):
+    import email.utils
+
+    from ..wire.h2raw import FrameBuilder, FrameReader, client_preface
+    from ..world.realnet import ServeHarness, recv_until
+
+    apps = {"lifespan": [["recv"], ["send", {"type": "lifespan.startup.complete"}], ["recv"], ["send", {"type": "lifespan.shutdown.complete"}]],
+            "default": [["recv_until_end"], ["respond", 200, [(b"content-length", b"2")], b"ok"]]}
+    h = ServeHarness(case["backend"], {"keep_alive_timeout": 30.0, "graceful_timeout": 0.5, "shutdown_timeout": 0.5}, apps)
+    dates = []
+    try:
+        h.start()
+        h.wait_ready()
+        s = h.connect()
+        if s is None:
+            tally.inconclusive["date-wire:no-connection"] += 1
+            return []
+
+        def ask_h1():
+            t0 = time.time()
+            s.sendall(b"GET /d HTTP/1.1\r\nHost: h\r\n\r\n")
+            head = recv_until(s, b"\r\n\r\nok", timeout=3.0)
+            t1 = time.time()
+            d = [ln.split(b":", 1)[1].strip() for ln in head.split(b"\r\n") if ln.lower().startswith(b"date:")]
+            dates.append((t0, t1, d))
+
+        if case["proto"] == "h1":
+            if case["how"] == "second-response":
+                ask_h1()
+            time.sleep(2.2)
+            ask_h1()
+        else:
+            fb, rd = FrameBuilder(), FrameReader()
+            s.sendall(client_preface(fb, {}))
+            for k, sid in enumerate((1, 3)):
+                if k:
+                    time.sleep(2.2)
+                t0 = time.time()
+                s.sendall(fb.headers(sid, [(b":method", b"GET"), (b":scheme", b"http"), (b":path", b"/d"), (b":authority", b"h")], end_stream=True))
+                evs, end = [], time.time() + 3.0
+                s.settimeout(0.3)
+                while time.time() < end and not any(e["t"] == "headers" and e["sid"] == sid for e in evs):
+                    try:
+                        x = s.recv(65536)
+                    except OSError:
+                        continue
+                    if not x:
+                        break
+                    evs += rd.feed(x)
+                t1 = time.time()
+                hd = next((e["headers"] for e in evs if e["t"] == "headers" and e["sid"] == sid), None) or []
+                dates.append((t0, t1, [bytes(v) for n_, v in hd if bytes(n_) == b"date"]))
+        s.close()
+    finally:
+        h.close()
+    out = []
+    tally.clause("headers")
+    t0, t1, d = dates[-1]
+    ok = False
+    if len(d) == 1:
+        try:
+            sent = email.utils.parsedate_to_datetime(d[0].decode("ascii")).timestamp()
+            ok = t0 - 1.0 <= sent <= t1 + 1.0
+        except Exception:
+            ok = False
+    if not ok:
+        out.append({"clause": "headers", "sig": "C19.headers/date-on-wire/%s" % case["how"],
+                    "detail": "%s, %s: the response sent between %.1f and %.1f (epoch) carries date %r (earlier responses of the connection: %r)" % (
+                        case["proto"], case["how"], t0, t1, d, [x[2] for x in dates[:-1]])})
+    return out
 
 
 def run_one(case, tally):
@@ -356,6 +433,8 @@ def run_one(case, tally):
             findings += _check_bind_list(case, tmp, tally)
         elif kind == "alt-svc":
             findings += _check_alt_svc(case, tally)
+        elif kind == "date-wire":
+            findings += _date_on_wire(case, tally)
         elif kind == "headers":
             cfg = Config()
             cfg.include_date_header = case["date"]
